@@ -163,3 +163,8 @@ def run(facts, res):
         res.instance("T4", "get_parent_revision answers from RevisionTree::get_parent only: %s" % ok, gp.loc())
         if not ok:
             res.violation("T4", "get_parent_revision|source", "get_parent_revision no longer reads the parent from the revision tree entry", gp.loc())
+
+
+def thorough(res):
+    from .. import engine
+    engine.sensitivity("C14", res)
